@@ -85,6 +85,7 @@ type trCtx struct {
 	noHoist int     // >0: inside the right operand of && / ||, where hoisting would change the evaluation order
 	loop   *trLoopCtx
 	pureDepth int // >0: translating a join as a pure term
+	nresults  int // number of results of the function (of the returned function literal for a curried method)
 }
 
 type trPre struct {
@@ -459,6 +460,9 @@ func (c *trCtx) selector(x *ast.SelectorExpr) string {
 func (c *trCtx) composite(x *ast.CompositeLit) string {
 	ty := c.typeOf(x)
 	lt := c.leanType(ty, x.Pos())
+	if (trIsTime(ty) || trIsDecimal(ty)) && len(x.Elts) == 0 {
+		return "(0 : " + lt + ")" // time.Time{} = 0001-01-01 00:00 UTC = day 0; decimal.Decimal{} = 0
+	}
 	under := ty.Underlying()
 	if p, ok := under.(*types.Pointer); ok {
 		under = p.Elem().Underlying()
